@@ -29,7 +29,7 @@ glom = env.bind()
 import glom.core as gcore  # noqa: E402
 import glom as glom_pkg  # noqa: E402
 from glom import (T, S, A, Path, Coalesce, Spec, Val, Call, Invoke, Ref, Pipe, Fill, Auto, Match, M, And, Or, Not, Switch,  # noqa: E402
-                  Check, Fold, Sum, Flatten, Merge, Iter, Regex, Optional, Required, SKIP, STOP, Glommer, Inspect)
+                  Check, Fold, Sum, Flatten, Merge, Iter, Regex, Optional, Required, SKIP, STOP, Glommer, Inspect, Vars)
 from glom.grouping import Group, First, Max, Min, Avg, Limit  # noqa: E402
 from glom.reduction import Count  # noqa: E402
 
@@ -125,6 +125,16 @@ def pool():
     add('noget-star', lambda: {'n': NoGet(), 'm': {'k': 1}}, lambda: '**')
     add('noget-star-k', lambda: {'n': NoGet(), 'm': {'k': 1}}, lambda: '*.k')
     add('noget-coalesce', lambda: {'n': NoGet()}, lambda: Coalesce('n.inner', skip_exc=glom_pkg.PathAccessError, default='dflt'))
+    # empty / nested-empty literals in argument position (results are mutated by the caller afterwards, see history())
+    add('empty-defaults', data, lambda: {'l': Coalesce('zz', default=[]), 'd': Coalesce('zz', default={}), 'n': Coalesce('zz', default=[[], {}]),
+                                         's': (S(acc=[]), S.acc), 'm': Match(Switch([(M == 'never', Val(1))], default=[]))})
+    add('match-optional-default', lambda: {'id': 1}, lambda: Match({'id': int, Optional('tags', default=[]): list}))
+    # Vars with keyword defaults only; written and read within the call
+    add('vars-kw', data, lambda: (S(v=Vars(last='init')), {'before': S.v.last, 'write': ('a.d', A.v.last), 'after': S.v.last}))
+    add('vars-empty', data, lambda: (S(v=Vars()), {'before': Coalesce(S.v.last, default='unset'), 'write': ('a.d', A.v.last), 'after': S.v.last}))
+    tree = lambda: {'v': 1, 'kids': [{'v': 2, 'kids': []}, {'v': 3, 'kids': [{'v': 4, 'kids': []}]}]}
+    add('ref-shared-1', tree, lambda: Ref('node', {'v': 'v', 'kids': ('kids', [_BARE_NODE])}))
+    add('ref-shared-2', tree, lambda: Ref('node', {'n': ('kids', len), 'sub': ('kids', [_BARE_NODE])}))
     add('spec', data, lambda: Spec(('a', 'd')))
     add('ref', lambda: {'v': 1, 'kids': [{'v': 2, 'kids': []}, {'v': 3, 'kids': [{'v': 4, 'kids': []}]}]},
         lambda: Ref('n', {'v': 'v', 'kids': ('kids', [Ref('n')])}))
@@ -208,6 +218,34 @@ def outcome_signature(o):
 
 def mk_scope():
     return {'ext': 'external-value', 'extlist': [1, 2]}
+
+
+def _hostile_mutate(v, depth=0, seen=None):
+    seen = seen if seen is not None else set()
+    if id(v) in seen or depth > 6:
+        return 0
+    seen.add(id(v))
+    n = 0
+    try:
+        if type(v) is list:
+            for x in list(v):
+                n += _hostile_mutate(x, depth + 1, seen)
+            v.append('MUTATED-BY-CALLER'); n += 1
+        elif type(v) in (dict, OrderedDict):
+            for x in list(v.values()):
+                n += _hostile_mutate(x, depth + 1, seen)
+            v['MUTATED-BY-CALLER'] = 1; n += 1
+        elif type(v) is set:
+            v.add('MUTATED-BY-CALLER'); n += 1
+        elif type(v) is tuple:
+            for x in v:
+                n += _hostile_mutate(x, depth + 1, seen)
+    except Exception:
+        pass
+    return n
+
+
+_BARE_NODE = Ref('node')      # one bare Ref object used by two different definitions (pool entries ref-shared-1 / -2)
 
 
 def run_pair(idx, P, spec=None, via=None):
@@ -355,6 +393,10 @@ def history(col, rng, P, baselines, length, contract):
             sig = outcome_signature(o)    # (drains iterators: lazy parts run now)
         after = (snapshot(target), snapshot(spec), snapshot(scope))
         col.count('calls_in_history')
+        if o.ok:
+            # a hostile caller: every mutable container of the RESULT is modified after the call.  The result may alias the
+            # (per call fresh) target and scope, never anything a later call depends on
+            col.count('result_containers_mutated_by_the_caller', _hostile_mutate(o.value))
         nontrivial = last_pair is not None and last_pair != idx and bool(seen_kinds)
         col.case((name, mode, tuple(sorted(seen_kinds))), nontrivial)
         last_pair = idx
